@@ -13,10 +13,14 @@ from common import Untranslatable
 ROOT = os.path.dirname(HERE)
 GEN = os.path.join(ROOT, 'coq', 'Gen')
 BASE = os.path.join(ROOT, 'coq', 'Gen.baseline')
-# translator module -> units it produces
-TRANSLATORS = {
-    't_retry': ['Retry'],
-}
+# translator module -> units it produces (every translator/t_*.py declares UNITS = [...])
+TRANSLATORS = {}
+for _f in sorted(os.listdir(HERE)):
+    if _f.startswith('t_') and _f.endswith('.py'):
+        try:
+            TRANSLATORS[_f[:-3]] = list(importlib.import_module(_f[:-3]).UNITS)
+        except Exception as _ex:
+            sys.stderr.write(f'translator {_f} cannot be loaded: {_ex}\n')
 
 
 def write_if_changed(path, text):
